@@ -148,6 +148,8 @@ type RunOpts struct {
 	// PriorRepo, with ReuseLinter, makes the Linter instance lint that repository
 	// (LintRepository) before the run proper: another history of the same instance.
 	PriorRepo string
+	// PriorFile, with ReuseLinter, makes the Linter instance lint that single file (LintFile) first.
+	PriorFile string
 	// After, when set, runs inside the simulation after the lint returned.
 	After func()
 }
@@ -198,6 +200,11 @@ func RunLint(w *World, c *Chooser, o RunOpts) *LintResult {
 		if shared != nil && o.PriorRepo != "" {
 			pw := *w
 			pw.API, pw.Files = APIRepo, []string{o.PriorRepo}
+			lintOnce(&pw, &LintResult{}, shared)
+		}
+		if shared != nil && o.PriorFile != "" {
+			pw := *w
+			pw.API, pw.Files = APIFile, []string{o.PriorFile}
 			lintOnce(&pw, &LintResult{}, shared)
 		}
 		for i := 0; i < rep; i++ {
